@@ -95,9 +95,8 @@ pub fn make_linked_list<'a>(vbar: bool, mut terms: Vec<Unifiable>) -> Unifiable 
         if i == last_index {
             if let SLinkedList{term: t, next: n, count: c, tail_var: tf} = node {
                 // If the last term is empty [], there is no need
-                // to add it to the tail.
-                if Nil == *t { tail = Nil; }
-                else {
+                // to add it to the tail, which is already an empty list.
+                if Nil != *t {
                     tail = cons_node!(*t, *n, c, tf);
                     num = c + 1;
                 }
